@@ -1,26 +1,43 @@
 """C07 — reverse complement, subsequence and copy obey their algebraic laws (pkg/obiseq + the three complement tables)."""
-import json, os
+import json, os, re
 
 PROPS = ["C07/Props.v"]
 META = dict(
     text="Rocq theorems over an executable model of obiseq: the in-place swap-and-complement loop equals rev(map comp) for every length, "
-         "reverse complement is an involution on the IUPAC alphabet with qualities and mismatch positions, rc(sub s f t) = sub(rc s)(|s|-t)(|s|-f), "
-         "the circular window equals a window of s++s on the exact accepted domain, pairing_mismatches coordinates commute with both; an ownership "
-         "model (heap of buffers, pool with arbitrary hand-out, recycle, in-place writes) is proved to simulate value semantics for every history. "
+         "reverse complement is an involution on the IUPAC alphabet with qualities and mismatch positions (exact domain stated: over symbols of "
+         "either case rc(rc s) = to_lower s, so rc(rc s) = s iff s is lower case), rc(sub s f t) = sub(rc s)(|s|-t)(|s|-f), the circular window equals a "
+         "window of s++s on the exact accepted domain, pairing_mismatches coordinates commute with both, Join keeps one score per symbol; an ownership "
+         "model (objects owning three buffers — sequence, qualities, features — in a heap, pool with arbitrary hand-out, recycle, in-place writes, mate "
+         "links) is proved to simulate value semantics for every history and every hand-out order, and derived objects are proved to share no mate. "
          "The complement tables are dumped from the current build on every run and the involution / three-tables-agree / model-comp-is-code theorems "
-         "are re-proved by the kernel over the regenerated file. The model is tied to the code by operation histories (new/copy/rc/sub/join/set/poke/"
-         "recycle/pool churn with poisoning) run on real BioSequence objects: every live object is observed after every step and checked by a Python "
-         "value-semantics oracle, and the same histories are evaluated by the model with vm_compute.",
-    note="Trusted: Coq kernel + vm_compute, harness, generators, the Python oracle. sync.Pool is not modelled (the ownership model covers every "
-         "hand-out order; the harness churns and poisons the pool under GOMAXPROCS=1); Join(inplace) and in-place edits of the stored mismatch map "
-         "are in the value model only. Keys of pairing_mismatches are compared case-insensitively by the oracle (rc lower-cases their letters). "
-         "Guards stated in the theorems: circular windows need |s| > 0, from >= 0, to >= 0; qualities have the length of the sequence; "
-         "mismatch keys have the form (x:dd)->(y:dd). Sequences longer than 300 go through the code and the oracle only.")
-TRUSTED = ["sync.Pool hand-out order is not modelled: the object model proves value semantics for every hand-out order, the harness poisons pooled slices",
+         "are re-proved by the kernel over the regenerated file. Tie to the code on every run: operation histories (every constructor: NewBioSequence, "
+         "SetSequence, Write/WriteString/WriteByte; copy/rc/sub/join/set*/poke*/pair/unpair/recycle/pool churn with poisoning) run on real BioSequence "
+         "objects with the pool-trace hook on; every live object (symbols, qualities, mismatches, features, mate) is observed after every step and checked "
+         "by a Python value-semantics oracle; the same histories are evaluated by the value model with vm_compute; and the REAL Get/Recycle events and "
+         "buffer identities of every step are replayed on the ownership model (Trace.trun, vm_compute): every buffer the real pool hands out must be free "
+         "in the model, every recycled buffer must be unowned afterwards, the buffers of the registers must stay in bijection with the model's — an "
+         "accepted trace is proved to be a run of the ownership model, hence of the value semantics (C07_trace_accepted_is_value_run).",
+    note="Trusted: Coq kernel + vm_compute, harness, generators, the Python oracle, the verif hooks (pool_verif.go trace + poison, verif2_c07.go raw "
+         "buffers). sync.Pool itself is not modelled: the ownership theorem covers every hand-out order and the real order of every run is validated "
+         "against the model; only safety of the events is enforced (not the exact number of Gets of an operation), under GOMAXPROCS=1. In-place edits of "
+         "the stored mismatch map are in the value model only; the annotation pool events are counted, not modelled. Keys of pairing_mismatches are "
+         "compared case-insensitively by the oracle (rc lower-cases their letters). Guards stated in the theorems: circular windows need |s| > 0, "
+         "from >= 0, to >= 0; qualities have the length of the sequence (the generators keep it: SetSequence/SetQualities of the same length, Write only "
+         "on objects without qualities); mismatch keys have the form (x:dd)->(y:dd). Upper-case symbols (reachable through the Write family only) are "
+         "outside the involution domain (stated). Recorded outside the statement: a recycled paired object leaves its mate with a stale link. Histories "
+         "with sequences longer than 300 go through the oracle only, except the reuse histories (lengths up to 1400, no reverse complement above 400) "
+         "which also go through the value model and the trace validator.")
+TRUSTED = ["sync.Pool hand-out order is not modelled: the object model proves value semantics for every hand-out order; the real Get/Recycle events "
+           "(verif hook pkg/obiseq/pool_verif.go, buffers poisoned with 0xDB on recycle) are validated against the model by C07.Trace.trun on every run",
+           "buffer identities are start addresses of backing arrays reported by the harness (pkg/obiseq/verif2_c07.go), kept alive for the duration of a case",
            "deepcopy of annotation values (obiutils.MustFillMap) is taken as a faithful copy"]
 
 IUPAC = "acgtrymkswbdhvn.-[]"
 SPEC_COMP = dict(zip("acgtrymkswbdhvn.-[]", "tgcayrkmswvhdbn.-]["))
+# upper-case IUPAC letters (reachable through the Write family only: NewBioSequence / SetSequence lower-case their input) are complemented
+# like their lower-case form and come out LOWER case (theorem C07_comp_upper_case): they are outside the involution domain
+# (theorem C07_rc_involution_domain: rc (rc s) = to_lower s)
+SPEC_COMP_ALL = dict(SPEC_COMP, **{k.upper(): v for k, v in SPEC_COMP.items() if k.isalpha()})
 VERIF = os.path.dirname(os.path.dirname(os.path.dirname(os.path.abspath(__file__))))
 TABLES_V = os.path.join(VERIF, "coq", "theories", "C07", "Gen", "Tables.v")
 
@@ -95,7 +112,7 @@ def spec_comp(ch):
 
 
 def spec_rc_seq(s):
-    return "".join(SPEC_COMP.get(c, "?") for c in reversed(s))
+    return "".join(SPEC_COMP_ALL.get(c, "?") for c in reversed(s))
 
 
 def spec_revkey(k):
@@ -106,11 +123,13 @@ def spec_revkey(k):
 
 
 class Val:
-    def __init__(self, seq, qual, mm):
-        self.seq, self.qual, self.mm = seq, qual, mm
+    def __init__(self, seq, qual, mm, feat="", mate=None):
+        self.seq, self.qual, self.mm, self.feat, self.mate = seq, qual, mm, feat, mate     # mate: object index
 
-    def copy(self):
-        return Val(self.seq, None if self.qual is None else list(self.qual), None if self.mm is None else dict(self.mm))
+    def copy(self, keep_mate=False):
+        """Copy(): fresh buffers, same features, NO mate (keep_mate: snapshot of the same object)"""
+        return Val(self.seq, None if self.qual is None else list(self.qual), None if self.mm is None else dict(self.mm), self.feat,
+                   self.mate if keep_mate else None)
 
 
 def spec_rc(v):
@@ -120,7 +139,7 @@ def spec_rc(v):
         mm = {spec_revkey(k): L - p + 1 for k, p in mm.items()}
     elif mm is not None:
         mm = {}
-    return Val(spec_rc_seq(v.seq), None if v.qual is None else v.qual[::-1], mm)
+    return Val(spec_rc_seq(v.seq), None if v.qual is None else v.qual[::-1], mm, v.feat, v.mate)
 
 
 def spec_sub(v, f, t, circ):
@@ -149,15 +168,24 @@ def spec_sub(v, f, t, circ):
         mm = nm
     elif mm is not None:
         mm = {}
-    return ("ok", Val(d[start:start + n], dq, mm))
+    return ("ok", Val(d[start:start + n], dq, mm, "", None))      # a window is a new object: no features, no mate
 
 
 def oracle_history(ops):
-    """Value semantics of a history. Returns per step (status, res, same, snapshot) with status None = unconstrained."""
+    """Value semantics of a history. Returns per step (status, res, same, snapshot) with status None = unconstrained.
+    A snapshot entry is None (dead register) or (Val, mate observable)."""
     regs, objs, out = [], [], []
 
+    def mate_obs(v):
+        if v.mate is None:
+            return -1
+        for i, x in enumerate(regs):
+            if x == v.mate:
+                return i
+        return -2
+
     def snap():
-        return [None if r is None else objs[r] for r in regs]
+        return [None if r is None else (objs[r].copy(keep_mate=True), mate_obs(objs[r])) for r in regs]
     for op in ops:
         k = op["op"]
         status, res, same = "ok", -1, -1
@@ -165,8 +193,11 @@ def oracle_history(ops):
         r = op.get("r", 0)
         v = objs[regs[r]] if k not in ("new", "churn", "gc") and r < len(regs) and regs[r] is not None else None
         if k == "new":
-            newobj = Val(op["seq"].lower(), None if op.get("qual") is None or len(op["qual"]) == 0 else list(op["qual"]),
-                         dict(op["mm"]) if op.get("hasmm") else None)
+            s = op["seq"] if op.get("via") in ("write", "writestring", "writebyte") else op["seq"].lower()
+            newobj = Val(s, None if op.get("qual") is None or len(op["qual"]) == 0 else list(op["qual"]),
+                         dict(op["mm"]) if op.get("hasmm") else None, op.get("feat", "") if op.get("hasfeat") else "")
+        elif v is None and k not in ("churn", "gc"):
+            status = "err"
         elif k == "copy":
             newobj = v.copy()
         elif k == "rc":
@@ -177,6 +208,7 @@ def oracle_history(ops):
                 regs.append(regs[r])
             else:
                 newobj = spec_rc(v)
+                newobj.mate = None
         elif k == "sub":
             e = spec_sub(v, op["from"], op["to"], op["circ"])
             if e is None:
@@ -187,29 +219,54 @@ def oracle_history(ops):
             else:
                 newobj = e[1]
         elif k == "join":
-            v2 = objs[regs[op["r2"]]]
-            if op["inplace"]:
-                v.seq = v.seq + v2.seq
-                res, same = len(regs), min(i for i, x in enumerate(regs) if x == regs[r])
-                regs.append(regs[r])
+            r2 = op["r2"]
+            v2 = objs[regs[r2]] if r2 < len(regs) and regs[r2] is not None else None
+            if v2 is None:
+                status = "err"
             else:
-                newobj = v.copy()
-                newobj.seq = v.seq + v2.seq
+                nseq = v.seq + v2.seq
+                # the qualities follow the symbols (seq2.Qualities() is the default vector of 40s when seq2 has none)
+                nq = None if v.qual is None else v.qual + (v2.qual if v2.qual is not None else [40] * len(v2.seq))
+                if op["inplace"]:
+                    v.seq, v.qual = nseq, nq
+                    res, same = len(regs), min(i for i, x in enumerate(regs) if x == regs[r])
+                    regs.append(regs[r])
+                else:
+                    newobj = v.copy()
+                    newobj.seq, newobj.qual = nseq, nq
         elif k == "setseq":
             v.seq = op["seq"].lower()
+        elif k == "write":
+            v.seq = v.seq + op["seq"]
         elif k == "setqual":
             v.qual = list(op["qual"]) if op["qual"] else None
+        elif k == "setfeat":
+            v.feat = op["feat"]
         elif k == "poke":
             if 0 <= op["i"] < len(v.seq):
                 v.seq = v.seq[:op["i"]] + chr(op["b"]) + v.seq[op["i"] + 1:]
         elif k == "pokeq":
             if v.qual is not None and 0 <= op["i"] < len(v.qual):
                 v.qual[op["i"]] = op["b"]
+        elif k == "pokef":
+            if 0 <= op["i"] < len(v.feat):
+                v.feat = v.feat[:op["i"]] + chr(op["b"]) + v.feat[op["i"] + 1:]
         elif k == "setmm":
             v.mm = dict(op["mm"])
         elif k == "pokemm":
             if v.mm is not None:
                 v.mm[op["key"]] = op["b"]
+        elif k == "pair":
+            r2 = op["r2"]
+            if r2 >= len(regs) or regs[r2] is None:
+                status = "err"
+            else:                       # s.paired = p; p.paired = s (former mates keep their stale links)
+                v.mate = regs[r2]
+                objs[regs[r2]].mate = regs[r]
+        elif k == "unpair":
+            if v.mate is not None:
+                objs[v.mate].mate = None
+            v.mate = None
         elif k == "recycle":
             o = regs[r]
             regs = [None if x == o else x for x in regs]
@@ -217,13 +274,14 @@ def oracle_history(ops):
             res = len(regs)
             objs.append(newobj)
             regs.append(len(objs) - 1)
-        out.append((status, res, same, [None if x is None else x.copy() for x in snap()]))
+        out.append((status, res, same, snap()))
     return out
 
 
 def val_matches(exp, got):
     if exp is None:
         return not got["live"]
+    exp, mate = exp
     if not got["live"]:
         return False
     if got["seq"] != exp.seq:
@@ -231,6 +289,8 @@ def val_matches(exp, got):
     if (exp.qual is None) != (not got["hasq"]):
         return False
     if exp.qual is not None and got.get("qual") != exp.qual:
+        return False
+    if got.get("feat", "") != exp.feat or got.get("mate", -1) != mate:
         return False
     gm = got.get("mm")
     if exp.mm is None:
@@ -260,12 +320,14 @@ def check_history(c, o):
         for r, (ev, gv) in enumerate(zip(snap, st["snap"])):
             if not val_matches(ev, gv):
                 return "after step %d (%s) register %d holds %s, expected %s" % (
-                    i, c["ops"][i]["op"], r, json.dumps(gv), "dead" if ev is None else json.dumps(dict(seq=ev.seq, qual=ev.qual, mm=ev.mm)))
+                    i, c["ops"][i]["op"], r, json.dumps(gv), "dead" if ev is None else json.dumps(dict(seq=ev[0].seq, qual=ev[0].qual, mm=ev[0].mm, feat=ev[0].feat, mate=ev[1])))
     law = c.get("law")
     if law:                         # laws checked on the implementation's own objects (both sides computed by the real code)
         a, b = o["final"][law[1]], o["final"][law[2]]
+        if law[0].startswith("rc (rc s)"):       # exact involution domain: upper-case symbols come back lower case
+            a = dict(a, seq=a["seq"].lower())
         keyset = lambda v: None if v.get("mm") is None else sorted((k.lower(), p) for k, p in v["mm"])
-        if (a["seq"], a.get("qual"), keyset(a)) != (b["seq"], b.get("qual"), keyset(b)):
+        if (a["seq"], a.get("qual"), keyset(a), a.get("feat")) != (b["seq"], b.get("qual"), keyset(b), b.get("feat")):
             return "law %s: register %d = %s but register %d = %s" % (law[0], law[1], json.dumps(a), law[2], json.dumps(b))
     return None
 
@@ -294,13 +356,30 @@ def rmm(rng, L, kmax=4):
     return m
 
 
-def new_op(rng, L, alpha=IUPAC, pq=0.5, pm=0.4):
+VIAS = ["", "setseq", "write", "writestring", "writebyte"]
+FEATS = ["FT   source          1..%d", "FT   CDS             <1..>%d\nFT                   /codon_start=2", "F", "FH   Key             Location/Qualifiers " + "x" * 330]
+
+
+def rfeat(rng, L):
+    f = rng.choice(FEATS)
+    return f % L if "%d" in f else f
+
+
+def new_op(rng, L, alpha=IUPAC, pq=0.5, pm=0.4, pf=0.25, pvia=0.3):
+    """a constructor: NewBioSequence, or NewEmptyBioSequence + SetSequence / Write / WriteString / WriteByte (the Write family
+    stores the bytes as given: upper-case input stays upper case); n = preallocated capacity of the empty object"""
     s = rseq(rng, L, alpha)
     if rng.random() < 0.15:
         s = s.upper()
     hasmm = rng.random() < pm and L > 0
-    return dict(op="new", seq=s, qual=rqual(rng, L) if rng.random() < pq and L > 0 else None, hasmm=hasmm,
-                mm=rmm(rng, L) if hasmm else None)
+    op = dict(op="new", seq=s, qual=rqual(rng, L) if rng.random() < pq and L > 0 else None, hasmm=hasmm,
+              mm=rmm(rng, L) if hasmm else None)
+    if rng.random() < pvia:
+        op["via"] = rng.choice(VIAS[1:])
+        op["n"] = rng.choice([0, 0, L, L + 7, 300, 2 * L + 1])
+    if rng.random() < pf:
+        op["hasfeat"], op["feat"] = True, rfeat(rng, L)
+    return op
 
 
 MM2 = {"(A:30)->(C:20)": 50, "(G:12)->(T:07)": 5}
@@ -327,6 +406,35 @@ CORPUS = [
                                     dict(op="rc", r=1, inplace=False), dict(op="rc", r=0, inplace=True), dict(op="rc", r=0, inplace=True)]),
     dict(tag="rc-empty", ops=[dict(op="new", seq="", qual=None, hasmm=False, mm=None), dict(op="rc", r=0, inplace=False), dict(op="rc", r=0, inplace=True)]),
     dict(tag="circular-empty", ops=[dict(op="new", seq="", qual=None, hasmm=False, mm=None), dict(op="sub", r=0, **{"from": 0}, to=1, circ=True)]),
+    # round 2 ---------------------------------------------------------------------------------------------------------------
+    # SetFeatures: the old feature buffer goes to the pool, the object adopts the caller's slice; the next hand-outs must not touch it
+    dict(tag="pool-setfeatures", ops=[dict(op="new", seq="acgt", qual=[1, 2, 3, 4], hasfeat=True, feat="FT   source 1..4"), dict(op="new", seq="ttga", hasfeat=True, feat="FT   other"),
+                                      dict(op="setfeat", r=1, feat="X" * 12, n=400), dict(op="recycle", r=1), dict(op="setfeat", r=0, feat="NEWFEATURES", n=400),
+                                      dict(op="setfeat", r=0, feat="NEWFEATURES2", n=400), dict(op="new", seq="gggg"), dict(op="churn", n=8, b=300),
+                                      dict(op="copy", r=0), dict(op="sub", r=0, **{"from": 1}, to=3, circ=False), dict(op="rc", r=0, inplace=False), dict(op="pokef", r=4, i=0, b=90),
+                                      dict(op="recycle", r=0), dict(op="churn", n=8, b=300)]),
+    # Join of sequences with qualities: the joined object must be a sequence with qualities (reverse complement works on it)
+    dict(tag="join-qualities", ops=[dict(op="new", seq="acgt", qual=[1, 2, 3, 4]), dict(op="new", seq="gg", qual=[7, 8]), dict(op="join", r=0, r2=1, inplace=False),
+                                    dict(op="rc", r=2, inplace=False), dict(op="rc", r=3, inplace=False)], law=["rc (rc s) = s", 2, 4]),
+    dict(tag="join-qualities-inplace", ops=[dict(op="new", seq="acgt", qual=[1, 2, 3, 4]), dict(op="new", seq="gg"), dict(op="join", r=0, r2=1, inplace=True),
+                                            dict(op="join", r=1, r2=0, inplace=True), dict(op="rc", r=0, inplace=True), dict(op="join", r=0, r2=0, inplace=False)]),
+    # paired links: derived objects have no mate, in-place reverse complement keeps it, a recycled mate leaves a stale link
+    dict(tag="paired", ops=[dict(op="new", seq="acgt"), dict(op="new", seq="gg"), dict(op="pair", r=0, r2=1), dict(op="copy", r=0),
+                            dict(op="sub", r=0, **{"from": 1}, to=3, circ=False), dict(op="rc", r=0, inplace=False), dict(op="rc", r=0, inplace=True),
+                            dict(op="new", seq="tt"), dict(op="pair", r=6, r2=1), dict(op="recycle", r=0), dict(op="unpair", r=1), dict(op="pair", r=1, r2=1),
+                            dict(op="recycle", r=6), dict(op="unpair", r=1)]),
+    # the Write family stores bytes as given: an upper-case sequence is NOT restored by a double reverse complement (outside the alphabet)
+    dict(tag="write-upper", ops=[dict(op="new", seq="ACGTRYKM", via="write", n=10), dict(op="rc", r=0, inplace=False), dict(op="rc", r=1, inplace=False),
+                                 dict(op="new", seq="ACGT", via="writestring", n=0), dict(op="new", seq="AcGt", via="writebyte", n=0), dict(op="new", seq="AcGt", via="setseq", n=3),
+                                 dict(op="write", r=3, seq="nN"), dict(op="rc", r=3, inplace=True)]),
+    # seed C07-A: a circular window that wraps over the origin of a source with spare capacity must not alias the source
+    dict(tag="circular-spare-capacity", ops=[dict(op="new", seq="acgtacgtac", qual=list(range(10)), via="setseq", n=64), dict(op="sub", r=0, **{"from": 7}, to=3, circ=True),
+                                             dict(op="poke", r=1, i=0, b=ord("n")), dict(op="sub", r=0, **{"from": 8}, to=2, circ=True), dict(op="new", seq="ACGTACGTAC", via="write", n=64),
+                                             dict(op="sub", r=3, **{"from": 7}, to=3, circ=True), dict(op="write", r=3, seq="tt"), dict(op="sub", r=3, **{"from": 9}, to=1, circ=True)]),
+    # recycle -> get cycles with interleaved owners; the survivors of recycled sources are then modified
+    dict(tag="reuse", ops=[dict(op="new", seq="acgtacgt", qual=[1, 2, 3, 4, 5, 6, 7, 8]), dict(op="copy", r=0), dict(op="recycle", r=0), dict(op="sub", r=1, **{"from": 2}, to=6, circ=False),
+                           dict(op="rc", r=1, inplace=False), dict(op="recycle", r=1), dict(op="copy", r=2), dict(op="setqual", r=3, qual=[9] * 8), dict(op="poke", r=2, i=0, b=ord("n")),
+                           dict(op="recycle", r=3), dict(op="new", seq="t" * 301), dict(op="recycle", r=5), dict(op="new", seq="g" * 20), dict(op="copy", r=4)]),
 ]
 
 
@@ -368,7 +476,7 @@ def gen_laws(rng, n, maxlen):
     return cases
 
 
-def gen_history(rng, nops, maxlen):
+def gen_history(rng, nops, maxlen, precycle=0.05):
     ops = [new_op(rng, rng.randrange(0, maxlen + 1))]
     vals = oracle_history(ops)          # to know lengths / liveness while generating
     regs = [0]
@@ -387,7 +495,7 @@ def gen_history(rng, nops, maxlen):
             continue
         r = rng.choice(lv)
         v = snap[r]
-        L = len(v.seq)
+        L = len(v[0].seq)
         if k < 0.18:
             ops.append(dict(op="copy", r=r))
         elif k < 0.36:
@@ -400,10 +508,17 @@ def gen_history(rng, nops, maxlen):
                 f, t = rng.randrange(-1, L + 2), rng.randrange(0, L + 3)
             ops.append(dict(op="sub", r=r, **{"from": f}, to=t, circ=circ))
         elif k < 0.56:
-            if v.qual is None:
+            z = rng.random()
+            if z < 0.55:
                 ops.append(dict(op="join", r=r, r2=rng.choice(lv), inplace=rng.random() < 0.4))
+            elif z < 0.8 and v[0].qual is None:       # raw append (the Write family does not touch the qualities)
+                ops.append(dict(op="write", r=r, seq=rseq(rng, rng.randrange(0, 9)), via=rng.choice(["", "writestring", "writebyte"])))
+            elif z < 0.9:
+                ops.append(dict(op="pair", r=r, r2=rng.choice(lv)))
+            else:
+                ops.append(dict(op="unpair", r=r))
         elif k < 0.64:
-            ops.append(dict(op="setseq", r=r, seq=rseq(rng, L if v.qual is not None else rng.randrange(0, maxlen + 1))))
+            ops.append(dict(op="setseq", r=r, seq=rseq(rng, L if v[0].qual is not None else rng.randrange(0, maxlen + 1))))
         elif k < 0.70:
             if L > 0:
                 ops.append(dict(op="setqual", r=r, qual=rqual(rng, L)))
@@ -411,11 +526,16 @@ def gen_history(rng, nops, maxlen):
             ops.append(dict(op="poke", r=r, i=rng.randrange(0, L), b=ord(rng.choice(IUPAC))))
         elif k < 0.85 and L > 0:
             ops.append(dict(op="pokeq", r=r, i=rng.randrange(0, L), b=rng.randrange(0, 94)))
-        elif k < 0.89 and L > 0:
+        elif k < 0.87 and L > 0:
             ops.append(dict(op="setmm", r=r, mm=rmm(rng, L)))
-        elif k < 0.92 and v.mm:
-            ops.append(dict(op="pokemm", r=r, key=rng.choice(sorted(v.mm)), b=rng.randrange(1, L + 2)))
-        elif k < 0.97:
+        elif k < 0.89:
+            if v[0].feat and rng.random() < 0.4:
+                ops.append(dict(op="pokef", r=r, i=rng.randrange(0, len(v[0].feat)), b=ord(rng.choice("XYZ /"))))
+            else:
+                ops.append(dict(op="setfeat", r=r, feat=rfeat(rng, L), n=rng.choice([0, 0, 300, 400, 1100])))
+        elif k < 0.92 and v[0].mm:
+            ops.append(dict(op="pokemm", r=r, key=rng.choice(sorted(v[0].mm)), b=rng.randrange(1, L + 2)))
+        elif k < 0.97 or rng.random() < precycle * 4:
             ops.append(dict(op="recycle", r=r))
         elif k < 0.99:
             ops.append(dict(op="churn", n=rng.randrange(1, 6), b=rng.choice([1, 50, 300, 1024])))
@@ -425,17 +545,81 @@ def gen_history(rng, nops, maxlen):
     return dict(tag="history", ops=ops)
 
 
+def rlen(rng):
+    z = rng.random()
+    if z < 0.86:
+        return rng.randrange(0, 41)
+    if z < 0.92:
+        return rng.randrange(280, 320)          # around the capacity of the buffers sync.Pool.New makes (300)
+    if z < 0.97:
+        return rng.randrange(1000, 1040)        # around the largest pooled capacity (1024)
+    return rng.randrange(1100, 1400)            # never pooled
+
+
+def gen_reuse(rng, nops, rc_max=400):
+    """many recycle -> get cycles with interleaved owners: objects are created / copied / windowed and recycled soon after, the
+    survivors of recycled sources are modified and read; lengths around the pool's capacity thresholds"""
+    ops = [new_op(rng, rlen(rng), pm=0.15, pf=0.3) for _ in range(rng.randrange(2, 5))]
+    for _ in range(nops):
+        st = oracle_history(ops)
+        if st[-1][0] is None:
+            break
+        snap = st[-1][3]
+        lv = [i for i, v in enumerate(snap) if v is not None]
+        k = rng.random()
+        if len(lv) < 2 or k < 0.10:
+            ops.append(new_op(rng, rlen(rng), pm=0.15, pf=0.3))
+            continue
+        r = rng.choice(lv)
+        v = snap[r][0]
+        L = len(v.seq)
+        if k < 0.36:
+            ops.append(dict(op="recycle", r=lv[0] if rng.random() < 0.5 else r))
+        elif k < 0.52:
+            ops.append(dict(op="copy", r=r))
+        elif k < 0.66 and L > 0:
+            if rng.random() < 0.5:              # circular window wrapping over the origin
+                f = rng.randrange(L // 2, L)
+                ops.append(dict(op="sub", r=r, **{"from": f}, to=rng.randrange(0, f + 1), circ=True))
+            else:
+                f = rng.randrange(0, L)
+                ops.append(dict(op="sub", r=r, **{"from": f}, to=rng.randrange(f + 1, L + 1), circ=False))
+        elif k < 0.76 and L <= rc_max:
+            ops.append(dict(op="rc", r=r, inplace=rng.random() < 0.4))
+        elif k < 0.82:
+            ops.append(dict(op="setseq", r=r, seq=rseq(rng, L if v.qual is not None else rlen(rng))))
+        elif k < 0.88 and L > 0:
+            ops.append(dict(op="setqual", r=r, qual=rqual(rng, L)))
+        elif k < 0.92 and L > 0:
+            ops.append(dict(op="poke", r=r, i=rng.randrange(0, L), b=ord(rng.choice(IUPAC))))
+        elif k < 0.95:
+            ops.append(dict(op="join", r=r, r2=rng.choice(lv), inplace=rng.random() < 0.5))
+        elif k < 0.98:
+            ops.append(dict(op="setfeat", r=r, feat=rfeat(rng, L), n=rng.choice([0, 300, 400, 1100])))
+        else:
+            ops.append(dict(op="churn", n=rng.randrange(1, 4), b=rng.choice([1, 300, 301, 1024])))
+    return dict(tag="reuse", ops=ops)
+
+
 # ---------------------------------------------------------------- rendering for the Coq model
 def nlist(b):
     return "[" + ";".join(str(x) for x in b) + "]"
 
 
 def sq(s):
-    return nlist(s.encode("latin1"))
+    return nlist(s.encode("latin1", "replace"))      # poisoned bytes arrive as U+FFFD through JSON: any byte that differs from the model will do
 
 
 def mm_term(m):
     return "[" + ";".join("(%s, %d%%Z)" % (sq(k), p) for k, p in sorted(m.items())) + "]"
+
+
+def feat_of(op):
+    return sq(op.get("feat", "")) if op.get("hasfeat") else "[]"
+
+
+def lower_of(op):
+    return "false" if op.get("via") in ("write", "writestring", "writebyte") else "true"
 
 
 def op_term(op):
@@ -443,7 +627,7 @@ def op_term(op):
     if k == "new":
         q = nlist(op.get("qual") or [])
         m = "(Some %s)" % mm_term(op["mm"]) if op.get("hasmm") else "None"
-        return "ONew %s %s %s" % (sq(op["seq"]), q, m)
+        return "ONew %s %s %s %s %s" % (sq(op["seq"]), q, m, feat_of(op), lower_of(op))
     if k == "copy":
         return "OCopy %d%%nat" % op["r"]
     if k == "rc":
@@ -466,6 +650,16 @@ def op_term(op):
         return "OPokeMm %d%%nat %s (%d)%%Z" % (op["r"], sq(op["key"]), op["b"])
     if k == "recycle":
         return "ORecycle %d%%nat" % op["r"]
+    if k == "write":
+        return "OWrite %d%%nat %s" % (op["r"], sq(op["seq"]))
+    if k == "setfeat":
+        return "OSetFeat %d%%nat %s" % (op["r"], sq(op["feat"]))
+    if k == "pokef":
+        return "OPokeF %d%%nat %d %d" % (op["r"], op["i"], op["b"])
+    if k == "pair":
+        return "OPair %d%%nat %d%%nat" % (op["r"], op["r2"])
+    if k == "unpair":
+        return "OUnpair %d%%nat" % op["r"]
     return "ONop"
 
 
@@ -474,7 +668,7 @@ def val_term(v):
         return "None"
     q = nlist(v["qual"]) if v["hasq"] else "[]"
     m = "None" if v.get("mm") is None else "(Some [%s])" % ";".join("(%s, (%d)%%Z)" % (sq(k), p) for k, p in v["mm"])
-    return "(Some (mkv %s %s %s))" % (sq(v["seq"]), q, m)
+    return "(Some (mkv %s %s %s %s None, (%d)%%Z))" % (sq(v["seq"]), q, m, sq(v.get("feat", "")), v.get("mate", -1))
 
 
 def case_term(c, o):
@@ -492,15 +686,25 @@ def cop_term(op, rng):
     ch = lambda: choice_term(rng)
     if k == "new":
         m = "(Some %s)" % mm_term(op["mm"]) if op.get("hasmm") else "None"
-        return "CNew %s %s %s %s %s" % (sq(op["seq"]), nlist(op.get("qual") or []), m, ch(), ch())
+        return "CNew %s %s %s %s %s %s %s %s" % (sq(op["seq"]), nlist(op.get("qual") or []), m, feat_of(op), lower_of(op), ch(), ch(), ch())
     if k == "copy":
-        return "CCopy %d%%nat %s %s" % (op["r"], ch(), ch())
+        return "CCopy %d%%nat %s %s %s" % (op["r"], ch(), ch(), ch())
     if k == "rc":
-        return "CRc %d%%nat %s %s %s" % (op["r"], "true" if op["inplace"] else "false", ch(), ch())
+        return "CRc %d%%nat %s %s %s %s" % (op["r"], "true" if op["inplace"] else "false", ch(), ch(), ch())
     if k == "sub":
-        return "CSub %d%%nat (%d)%%Z (%d)%%Z %s %s %s" % (op["r"], op["from"], op["to"], "true" if op["circ"] else "false", ch(), ch())
+        return "CSub %d%%nat (%d)%%Z (%d)%%Z %s %s %s %s" % (op["r"], op["from"], op["to"], "true" if op["circ"] else "false", ch(), ch(), ch())
     if k == "join":
-        return "CJoin %d%%nat %d%%nat %s %s %s" % (op["r"], op["r2"], "true" if op["inplace"] else "false", ch(), ch())
+        return "CJoin %d%%nat %d%%nat %s %s %s %s" % (op["r"], op["r2"], "true" if op["inplace"] else "false", ch(), ch(), ch())
+    if k == "write":
+        return "CWrite %d%%nat %s" % (op["r"], sq(op["seq"]))
+    if k == "setfeat":
+        return "CSetFeat %d%%nat %s %s" % (op["r"], sq(op["feat"]), ch())
+    if k == "pokef":
+        return "CPokeF %d%%nat %d %d" % (op["r"], op["i"], op["b"])
+    if k == "pair":
+        return "CPair %d%%nat %d%%nat" % (op["r"], op["r2"])
+    if k == "unpair":
+        return "CUnpair %d%%nat" % op["r"]
     if k == "setseq":
         return "CSetSeq %d%%nat %s %s" % (op["r"], sq(op["seq"]), ch())
     if k == "setqual":
@@ -525,6 +729,18 @@ def ccase_term(c, o, rng):
     return "mkcc [%s]\n  %s\n  [%s]" % (";\n  ".join(cop_term(op, rng) for op in c["ops"]), steps, ";".join(val_term(v) for v in o["final"]))
 
 
+def tcase_term(c, o):
+    """the history with the REAL pool events of every step and the identities of the registers' buffers after every step (Trace.v)"""
+    st = dict(ok="SOk", err="SErr", panic="SPanic")
+    steps = []
+    for s in o["steps"]:
+        evs = ";".join("%s (%d)%%Z %d" % ("EvG" if e[0] == 0 else "EvR", e[1], e[2]) for e in (s.get("pool") or []))
+        bufs = ";".join("((%d)%%Z, (%d)%%Z, (%d)%%Z)" % tuple(b) for b in (s.get("bufs") or []))
+        steps.append("mkts [%s] [%s] (%s, (%d)%%Z, (%d)%%Z) %d%%nat" % (evs, bufs, st[s["status"]], s["res"], s["same"], len(s.get("shared") or [])))
+    return "mktc [%s]\n  [%s]\n  [%s]" % (";\n  ".join(op_term(op) for op in c["ops"]), ";\n   ".join(steps), ";".join(val_term(v) for v in o["final"]))
+
+
+IMPORTS_TRACE = "From Coq Require Import NArith ZArith List. Import ListNotations. Open Scope N_scope.\nFrom OBI.C07 Require Import Model Heap Trace."
 IMPORTS_HEAP = "From Coq Require Import NArith ZArith List. Import ListNotations. Open Scope N_scope.\nFrom OBI.C07 Require Import Model Heap."
 IMPORTS = "From Coq Require Import NArith ZArith List. Import ListNotations. Open Scope N_scope.\nFrom OBI.C07 Require Import Model."
 
@@ -534,9 +750,68 @@ def known_key(c, why):
     return None
 
 
-def evaluate(ctx, cases, broken, label, corr=True):
+ERRCODES = {2: "the pool handed out a buffer that a live object of the ownership model owns",
+            3: "a buffer was recycled that a live object still owns after the operation",
+            4: "the buffers of the registers are not those the model predicts (a live object's buffer given to another object, or a buffer moved outside an append)",
+            5: "step status / result register / alias differ", 6: "final values differ", 7: "malformed case",
+            8: "the backing arrays of two different live objects overlap"}
+
+
+def run_harness(ctx, vcases, timeout=600):
+    """vh c07 with the pool trace of the verif hook switched on (the harness reads the events of every operation back from the file)"""
+    tr = os.path.join(VERIF, ".build", "c07_pooltrace_%d.txt" % os.getpid())
+    try:
+        if os.path.exists(tr):
+            os.remove(tr)
+        return ctx.vh_robust("c07", vcases, timeout=timeout, one_timeout=20, binary="env VERIF_POOL_TRACE=%s %s" % (tr, ctx.vh_bin))
+    finally:
+        if os.path.exists(tr):
+            os.remove(tr)
+
+
+def killed(out):
+    """coqc was killed from outside (OOM killer / somebody's pkill on a loaded machine): not a verdict, retry"""
+    return any(w in (out or "")[-300:] for w in ("Killed", "Terminated")) and "Error" not in (out or "")[-300:]
+
+
+def coq_list(ctx, name, imports, terms, expr, shard=100, timeout=900, workers=14):
+    """Eval vm_compute of `expr cases` per shard; returns the list of printed results (strings)"""
+    from concurrent.futures import ThreadPoolExecutor
+    jobs = []
+    for k in range(0, len(terms), shard):
+        jobs.append(("C07_%s_%d" % (name, k // shard), imports + "\nDefinition cases := [\n" + ";\n".join(terms[k:k + shard]) + "\n].\n" +
+                     "Definition M := Eval vm_compute in (%s cases).\nPrint M.\n" % expr))
+
+    def one(j):
+        for attempt in range(3):
+            rc, out, dt = ctx.coq_eval(j[0], j[1], timeout=timeout)
+            if rc == 0 or not killed(out):
+                break
+        return rc, out, dt
+    with ThreadPoolExecutor(max_workers=workers) as ex:
+        return list(ex.map(one, jobs))
+
+
+def correspond_retry(ctx, name, imports, terms, fn, shard):
+    for attempt in range(3):
+        bad, err = ctx.correspond(name, imports, terms, fn, shard)
+        if bad is not None or not killed(err):
+            break
+    return bad, err
+
+
+def evaluate(ctx, cases, broken, label, corr=True, heap=True):
+    import time
+    tm = ctx.cov.setdefault("phase_seconds", {})
+    t0 = time.time()
+
+    def lap(name):
+        nonlocal t0
+        tm[name] = round(tm.get(name, 0) + time.time() - t0, 1)
+        t0 = time.time()
     vcases = [dict(kind="hist", each=True, ops=c["ops"]) for c in cases]
-    obs = ctx.vh_robust("c07", vcases, timeout=600, one_timeout=20)
+    obs = run_harness(ctx, vcases)
+    lap("harness")
     nviol = 0
     failing = []
     for i, (c, o) in enumerate(zip(cases, obs)):
@@ -551,42 +826,100 @@ def evaluate(ctx, cases, broken, label, corr=True):
             if nviol <= 3:
                 ctx.violation("%s_oracle_%d" % (label, i), dict(property="C07", kind="direct-oracle", tag=c.get("tag"), why=why,
                                                               case=dict(ops=c["ops"], law=c.get("law")), implementation=o))
-    # the ownership invariant of the model (Heap.v: live objects own pairwise disjoint buffers) observed on the real objects
-    inv = ctx.cov.setdefault("ownership_invariant_observed", dict(snapshots=0, snapshots_with_overlapping_buffers=0, first=None,
-                                                                 buffers_reused_from_an_earlier_owner=0))
+    # the ownership invariant of the model (Heap.v: live objects own pairwise disjoint buffers) observed on the real objects,
+    # and the reuse the real pool performed (MEASURED from the Get / Recycle events of the verif hook)
+    inv = ctx.cov.setdefault("ownership_invariant_observed", dict(snapshots=0, snapshots_with_overlapping_buffers=0, first=None))
+    pe = ctx.cov.setdefault("pool_events", dict(get=0, recycle=0, gets_handing_out_a_buffer_recycled_earlier_in_the_same_history=0,
+                                                histories_with_reuse=0, buffers_owned_by_two_or_more_objects_over_time=0))
     for c, o in zip(cases, obs):
-        owner, obj_of, counted = {}, {}, set()      # buffer identity -> object that owned it first; register -> object
+        recycled, reused_here = set(), 0
+        owners = {}
+        obj_of = {}
         for k, stp in enumerate(o.get("steps") or []):
+            for e in stp.get("pool") or []:
+                if e[0] == 1:
+                    pe["recycle"] += 1
+                    recycled.add(e[1])
+                else:
+                    pe["get"] += 1
+                    if e[1] in recycled:
+                        reused_here += 1
             if stp["res"] >= 0:
                 obj_of[stp["res"]] = obj_of.get(stp["same"], ("o", k)) if stp["same"] >= 0 else ("o", k)
-            for r, pair in enumerate(stp.get("bufs") or []):
-                for bid in pair:
+            for r, tri in enumerate(stp.get("bufs") or []):
+                for bid in tri:
                     if bid >= 0 and r in obj_of:
-                        first = owner.setdefault(bid, obj_of[r])
-                        if first != obj_of[r] and (bid, obj_of[r]) not in counted:
-                            counted.add((bid, obj_of[r]))
-                            inv["buffers_reused_from_an_earlier_owner"] += 1
+                        owners.setdefault(bid, set()).add(obj_of[r])
             inv["snapshots"] += 1
             if stp.get("shared"):
                 inv["snapshots_with_overlapping_buffers"] += 1
                 if inv["first"] is None:
                     inv["first"] = dict(ops=c["ops"][:k + 1], registers=stp["shared"])
+        pe["gets_handing_out_a_buffer_recycled_earlier_in_the_same_history"] += reused_here
+        pe["histories_with_reuse"] += 1 if reused_here else 0
+        pe["buffers_owned_by_two_or_more_objects_over_time"] += sum(1 for s in owners.values() if len(s) > 1)
     mism = []
+    lap("oracle")
     if corr:
         ok_idx = [i for i, o in enumerate(obs) if o.get("kind") == "hist"]
-        bad, err = ctx.correspond(label, IMPORTS, [case_term(cases[i], obs[i]) for i in ok_idx], shard=150)
+        # the three Coq passes are independent: they run side by side (terms rendered first: ctx.rng is not thread safe)
+        from concurrent.futures import ThreadPoolExecutor
+        terms = [tcase_term(cases[i], obs[i]) for i in ok_idx]
+        tshard = 100 if label != "longreuse" else 3
+        h_idx = [i for i in ok_idx if cases[i].get("tag") in ("history", "reuse", "pool-setqualities", "pool-setfeatures") or str(cases[i].get("tag", "")).startswith("revcomp-backlink")] if heap else []
+        hterms = [ccase_term(cases[i], obs[i], ctx.rng) for i in h_idx]
+        vterms = [case_term(cases[i], obs[i]) for i in ok_idx]
+        # (quick tier only: in the thorough tier 3 x 14 coqc at once need too much memory on a shared machine)
+        with ThreadPoolExecutor(max_workers=3 if ctx.quick else 1) as ex:
+            f1 = ex.submit(correspond_retry, ctx, label, IMPORTS, vterms, "mismatches", 150 if label != "longreuse" else 3)
+            f2 = ex.submit(coq_list, ctx, label + "_trace", IMPORTS_TRACE, terms, "trace_summary", tshard)
+            f3 = ex.submit(correspond_retry, ctx, label + "_heap", IMPORTS_HEAP, hterms, "heap_mismatches", 150) if heap else None
+            bad, err = f1.result()
+            tres = f2.result()
+            bad2, err2 = f3.result() if f3 else ([], None)
+        lap("coq_three_passes")
         if bad is None:
             broken.append(dict(kind="correspondence", detail=err))
         else:
             mism = [ok_idx[i] for i in bad]
-        # the ownership model (Heap.v) on the random histories, with random pool hand-out choices
-        h_idx = [i for i in ok_idx if cases[i].get("tag") in ("history", "pool-setqualities") or str(cases[i].get("tag", "")).startswith("revcomp-backlink")]
-        bad2, err2 = ctx.correspond(label + "_heap", IMPORTS_HEAP, [ccase_term(cases[i], obs[i], ctx.rng) for i in h_idx], fn="heap_mismatches", shard=150)
-        if bad2 is None:
-            broken.append(dict(kind="correspondence", detail=err2))
+        # TRACE VALIDATION: the real Get / Recycle events of every step and the identities of the registers' buffers, replayed on the
+        # ownership model with the hand-out choices the real pool made (Trace.v)
+        bad3, err3, nre = [], None, 0
+        for k, (rc, out, dt) in enumerate(tres):
+            m = re.search(r"M\s*=\s*\(\[([0-9;\s]*)\]\s*,\s*(\d+)\)", out.replace("%nat", ""))
+            if rc != 0 or not m:
+                bad3, err3 = None, "coqc failed on generated trace cases (%s): %s" % (label, out[-1500:])
+                break
+            bad3 += [k * tshard + int(x) for x in m.group(1).replace("\n", " ").split(";") if x.strip()]
+            nre += int(m.group(2))
+        if bad3 is None:
+            broken.append(dict(kind="correspondence", detail=err3))
         else:
-            ctx.cov["ownership_model_evaluations"] = ctx.cov.get("ownership_model_evaluations", 0) + len(h_idx)
-            mism = sorted(set(mism) | {h_idx[i] for i in bad2})
+            ctx.cov["traces_validated_against_impl"] = ctx.cov.get("traces_validated_against_impl", 0) + len(terms)
+            ctx.cov["model_evaluations"] = ctx.cov.get("model_evaluations", 0) + len(terms)
+            ctx.cov["model_acquires_from_the_pool_driven_by_real_events"] = ctx.cov.get("model_acquires_from_the_pool_driven_by_real_events", 0) + nre
+            tb = [ok_idx[i] for i in bad3]
+            tr = ctx.cov.setdefault("trace_rejections", dict(rejected=0, rejected_and_oracle_silent=0))
+            tr["rejected"] += len(tb)
+            tr["rejected_and_oracle_silent"] += len([i for i in tb if i not in failing])
+            for i in tb[:3]:
+                if i in failing:
+                    continue
+                rc, out, dt = coq_list(ctx, label + "_verdict", IMPORTS_TRACE, [tcase_term(cases[i], obs[i])], "trace_verdicts")[0]
+                m = re.search(r"\((\d+),\s*(\d+)\)", out.replace("%nat", ""))
+                step, code = (int(m.group(1)), int(m.group(2))) if m else (-1, 0)
+                ctx.violation("%s_pooltrace_%d" % (label, i), dict(
+                    property="C07", kind="pool-trace-rejected-by-model", tag=cases[i].get("tag"), step=step, code=code,
+                    why="step %d: %s" % (step, ERRCODES.get(code, "?")), case=dict(ops=cases[i]["ops"], law=cases[i].get("law")), implementation=obs[i],
+                    note="the real pool events / buffer identities of this history are not a run of the ownership model (C07.Trace.trun by vm_compute)"))
+            mism = sorted(set(mism) | set(tb))
+        if heap:
+            # the ownership model (Heap.v) on the random histories, with RANDOM pool hand-out choices (other hand-out orders than the real one)
+            if bad2 is None:
+                broken.append(dict(kind="correspondence", detail=err2))
+            else:
+                ctx.cov["ownership_model_evaluations"] = ctx.cov.get("ownership_model_evaluations", 0) + len(h_idx)
+                mism = sorted(set(mism) | {h_idx[i] for i in bad2})
     return obs, failing, mism
 
 
@@ -610,7 +943,7 @@ def run(ctx, broken):
     replay_tables(ctx, t, broken)
     quick = ctx.quick
     cases = list(CORPUS)
-    cases += gen_windows(rng, [1, 2, 3, 5] if quick else [1, 2, 3, 4, 5, 6, 7])
+    cases += gen_windows(rng, [1, 2, 3, 5] if quick else [1, 2, 3, 4, 5, 6])
     cases += gen_laws(rng, 60 if quick else 500, 60 if quick else 300)
     # reverse complement on every length 0..40 (middle base of odd lengths), then long ones
     for L in list(range(0, 41 if quick else 130)) + ([257, 1000] if quick else [257, 300, 301, 1000, 1024, 1025, 2000]):
@@ -623,16 +956,27 @@ def run(ctx, broken):
             for tup in itertools.product("ac[n", repeat=L):
                 cases.append(dict(tag="rc-exhaustive", ops=[dict(op="new", seq="".join(tup), qual=list(range(L)), hasmm=False, mm=None),
                                                             dict(op="rc", r=0, inplace=False), dict(op="rc", r=0, inplace=True)]))
-    nh = 250 if quick else 2500
+    nh = 200 if quick else 2000
     for i in range(nh):
         cases.append(gen_history(rng, rng.randrange(3, 14), rng.choice([4, 8, 12, 40]) if i % 10 else 400))
+    # reuse-heavy histories (lengths around the pool's thresholds 300 / 1024 and above): all of them go through the trace validator
+    reuse_cases = [gen_reuse(rng, rng.randrange(8, 30)) for _ in range(60 if quick else 500)]
     # long sequences go through the real code and the direct oracle only (the list model is quadratic in the length)
+    cases += [c for c in reuse_cases if max(len(op.get("seq", "")) for op in c["ops"]) <= 300]
     long_cases = [c for c in cases if max(len(op.get("seq", "")) for op in c["ops"]) > 300]
     long_cases += gen_laws(rng, 20 if quick else 300, 2000)
     cases = [c for c in cases if max(len(op.get("seq", "")) for op in c["ops"]) <= 300]
     ctx.cov["long_cases_oracle_only"] = len(long_cases)
     obs, failing, mism = evaluate(ctx, cases, broken, "main")
     obs_l, failing_l, _ = evaluate(ctx, long_cases, broken, "long", corr=False)
+    # long reuse histories (300 < length <= 1400): value model AND trace validator (no reverse complement above 400 symbols in them)
+    long_reuse = [c for c in reuse_cases if max(len(op.get("seq", "")) for op in c["ops"]) > 300][:18 if quick else 120]
+    obs_r, failing_r, mism_r = evaluate(ctx, long_reuse, broken, "longreuse", corr=True, heap=False)
+    ctx.cov["long_reuse_cases_through_the_model"] = len(long_reuse)
+    failing_l = failing_l + failing_r
+    if mism_r and not ctx.violations:
+        broken.append(dict(kind="correspondence", name="corr:C07/reuse-long", first_diverging_case=long_reuse[mism_r[0]]["ops"], implementation=obs_r[mism_r[0]], n_diverging=len(mism_r)))
+    long_cases = long_cases + long_reuse
     ctx.cov["evaluations"] = len(cases) + len(long_cases)
     nontriv = {json.dumps(c["ops"], sort_keys=True) for c in cases + long_cases if len(c["ops"]) >= 2 and any(len(op.get("seq", "")) >= 2 for op in c["ops"])}
     ctx.cov["distinct_nontrivial"] = len(nontriv)
